@@ -112,6 +112,8 @@ impl<T> Sender<T> {
             f(&mut slot);
             slot.is_some()
         };
+        #[cfg(scylla_verif)]
+        crate::verif_hooks::pause("mc.modify.after_unlock");
 
         if has_value {
             self.shared.notify.notify_one();
@@ -125,6 +127,8 @@ impl<T> Drop for Sender<T> {
         // The flag must be set before notifying, so that a receiver woken by
         // this notification is guaranteed to observe it.
         self.shared.sender_dropped.store(true, Ordering::Release);
+        #[cfg(scylla_verif)]
+        crate::verif_hooks::pause("mc.sender_drop.before_notify");
         self.shared.notify.notify_one();
     }
 }
@@ -158,10 +162,14 @@ impl<T> Receiver<T> {
             // Register in the wait list *before* looking at the slot, so that a
             // concurrent `modify` either is seen below or wakes us up.
             notified.as_mut().enable();
+            #[cfg(scylla_verif)]
+            crate::verif_hooks::pause("mc.recv.after_enable");
 
             if let Some(value) = take() {
                 return Some(value);
             }
+            #[cfg(scylla_verif)]
+            crate::verif_hooks::pause("mc.recv.after_take");
 
             if shared.sender_dropped.load(Ordering::Acquire) {
                 // The sender fills the slot before setting the flag, but we
